@@ -14,16 +14,19 @@ import (
 
 // ---------- instruction iteration ----------
 
-// eachInstr visits every instruction of fn (not nested closures).
+// eachInstr visits every instruction of fn (not nested closures), then those of the functions
+// fn absorbs (absorb.go: helpers the pinned tree did not have); the rule tables iterate
+// Prog.RepoFuncs, which leaves the absorbed helpers out, so a site is judged under the name of each
+// function that reaches it.
 func eachInstr(fn *ssa.Function, f func(ssa.Instruction)) {
 	if fn == nil {
 		return
 	}
-	for _, b := range fn.Blocks {
-		for _, in := range b.Instrs {
-			f(in)
-		}
+	if len(isAbsorbed) == 0 {
+		eachInstrRaw(fn, f)
+		return
 	}
+	eachInstrAbs(fn, f, 0)
 }
 
 // withAnons returns fn and all (transitively) nested anonymous functions.
@@ -226,6 +229,28 @@ func pathAvoidingD(fn *ssa.Function, from ssa.Instruction, target, cut func(ssa.
 		}
 		return pathAvoidingD(h, nil, func(x ssa.Instruction) bool { return isReturn(x) && x.Block() != h.Recover }, cut, depth+1) == nil
 	}
+	notRet := func(x ssa.Instruction) bool {
+		if isReturn(x) {
+			return false // a helper's returns are not the function's
+		}
+		return target(x)
+	}
+	// a start inside a helper fn absorbs: to the helper's returns, then on from its calls in fn
+	if from != nil && from.Parent() != fn && isAbsorbed[from.Parent()] && depth < 2 {
+		h := from.Parent()
+		if t := pathAvoidingD(h, from, notRet, cut, depth+1); t != nil {
+			return t
+		}
+		if pathAvoidingD(h, from, func(x ssa.Instruction) bool { return isReturn(x) && x.Block() != h.Recover }, cut, depth+1) == nil {
+			return nil
+		}
+		for _, c := range callsOfIn(h, fn) {
+			if t := pathAvoidingD(fn, c, target, cut, depth); t != nil {
+				return t
+			}
+		}
+		return nil
+	}
 	// scan returns (found, blocked)
 	scan := func(b *ssa.BasicBlock, i int) (ssa.Instruction, bool) {
 		for ; i < len(b.Instrs); i++ {
@@ -235,6 +260,19 @@ func pathAvoidingD(fn *ssa.Function, from ssa.Instruction, target, cut func(ssa.
 			}
 			if target(in) {
 				return in, false
+			}
+			if len(isAbsorbed) > 0 && depth < 2 {
+				if c, ok := in.(*ssa.Call); ok {
+					if h := c.Call.StaticCallee(); h != nil && isAbsorbed[h] && h != fn {
+						// walk into the absorbed helper, and out again at its returns
+						if t := pathAvoidingD(h, nil, notRet, cut, depth+1); t != nil {
+							return t, false
+						}
+						if pathAvoidingD(h, nil, func(x ssa.Instruction) bool { return isReturn(x) && x.Block() != h.Recover }, cut, depth+1) == nil {
+							return nil, true
+						}
+					}
+				}
 			}
 		}
 		return nil, false
@@ -281,6 +319,35 @@ func mustPassBefore(fn *ssa.Function, from ssa.Instruction, target, via func(ssa
 
 // instrDominates: a executes before b on every path to b (same function).
 func instrDominates(a, b ssa.Instruction) bool {
+	if pa, pb := a.Parent(), b.Parent(); pa != pb {
+		// b in a helper pa absorbs: a dominates every call of the helper in pa
+		if isAbsorbed[pb] {
+			if sites := callsOfIn(pb, pa); len(sites) > 0 {
+				all := true
+				for _, c := range sites {
+					if !instrDominatesSame(a, c) {
+						all = false
+					}
+				}
+				if all {
+					return true
+				}
+			}
+		}
+		// a in a helper pb absorbs: a call of the helper dominates b and a is on every path through the helper
+		if isAbsorbed[pa] {
+			for _, c := range callsOfIn(pa, pb) {
+				if instrDominatesSame(c, b) && pathAvoidingD(pa, nil, func(x ssa.Instruction) bool { return isReturn(x) && x.Block() != pa.Recover }, func(x ssa.Instruction) bool { return x == a }, 2) == nil {
+					return true
+				}
+			}
+		}
+		return false
+	}
+	return instrDominatesSame(a, b)
+}
+
+func instrDominatesSame(a, b ssa.Instruction) bool {
 	if a.Block() == b.Block() {
 		return instrIndex(a) < instrIndex(b)
 	}
@@ -374,6 +441,53 @@ type Fact struct {
 // blockFacts computes, for each block, the set of branch conditions known at
 // its entry: facts(B) = ∩_{P∈preds(B)} (facts(P) ∪ edge(P→B)).
 func blockFacts(fn *ssa.Function) map[*ssa.BasicBlock]map[Fact]bool {
+	res := blockFactsRaw(fn)
+	if len(isAbsorbed) == 0 {
+		return res
+	}
+	// the blocks of the helpers fn absorbs: their own facts plus what holds at every call in the host
+	var add func(host *ssa.Function, depth int)
+	add = func(host *ssa.Function, depth int) {
+		if depth >= 2 {
+			return
+		}
+		for _, h := range absorbedOf[host] {
+			var common map[Fact]bool
+			for _, c := range callsOfIn(h, host) {
+				at := res[c.Block()]
+				if common == nil {
+					common = map[Fact]bool{}
+					for f := range at {
+						common[f] = true
+					}
+				} else {
+					for f := range common {
+						if !at[f] {
+							delete(common, f)
+						}
+					}
+				}
+			}
+			for b, fs := range blockFactsRaw(h) {
+				m := map[Fact]bool{}
+				for f := range fs {
+					m[f] = true
+				}
+				for f := range common {
+					m[f] = true
+				}
+				if _, seen := res[b]; !seen {
+					res[b] = m
+				}
+			}
+			add(h, depth+1)
+		}
+	}
+	add(fn, 0)
+	return res
+}
+
+func blockFactsRaw(fn *ssa.Function) map[*ssa.BasicBlock]map[Fact]bool {
 	res := map[*ssa.BasicBlock]map[Fact]bool{}
 	if len(fn.Blocks) == 0 {
 		return res
